@@ -23,10 +23,15 @@ type (
 	}
 
 	sseConnection struct {
-		ctx             context.Context
+		ctx context.Context
+		// mu guards every write to (and flush of) the response once the keep-alive goroutine is
+		// running, the ticker, and closed.
 		mu              sync.Mutex
 		f               http.Flusher
 		keepAliveTicker *time.Ticker
+		// closed is set once Do is done with the response: the keep-alive goroutine must not touch
+		// the http.ResponseWriter after that (it is invalid once the handler has returned).
+		closed bool
 	}
 )
 
@@ -56,7 +61,7 @@ func (t SSE) Do(w http.ResponseWriter, r *http.Request, exec graphql.GraphExecut
 		f:   flusher,
 	}
 
-	defer c.flush()
+	defer c.close()
 
 	w.Header().Set("Cache-Control", "no-cache")
 	w.Header().Set("Connection", "keep-alive")
@@ -111,7 +116,7 @@ func (t SSE) Do(w http.ResponseWriter, r *http.Request, exec graphql.GraphExecut
 
 	if opErr != nil {
 		resp := exec.DispatchError(ctx, opErr)
-		writeJsonWithSSE(w, resp)
+		c.write(func() { writeJsonWithSSE(w, resp) })
 	} else {
 		responses, ctx := exec.DispatchOperation(ctx, rc)
 		for {
@@ -119,14 +124,16 @@ func (t SSE) Do(w http.ResponseWriter, r *http.Request, exec graphql.GraphExecut
 			if response == nil {
 				break
 			}
-			writeJsonWithSSE(w, response)
-			c.flush()
+			c.write(func() { writeJsonWithSSE(w, response) })
 
 			c.resetTicker(t.KeepAlivePingInterval)
 		}
 	}
 
-	fmt.Fprint(w, "event: complete\n\n")
+	c.write(func() {
+		fmt.Fprint(w, "event: complete\n\n")
+		c.closed = true
+	})
 }
 
 func (c *sseConnection) resetTicker(interval time.Duration) {
@@ -144,8 +151,7 @@ func (c *sseConnection) keepAlive(w io.Writer) {
 			c.keepAliveTicker.Stop()
 			return
 		case <-c.keepAliveTicker.C:
-			fmt.Fprintf(w, ": ping\n\n")
-			c.flush()
+			c.write(func() { fmt.Fprintf(w, ": ping\n\n") })
 		}
 	}
 }
@@ -154,6 +160,27 @@ func (c *sseConnection) flush() {
 	c.mu.Lock()
 	c.f.Flush()
 	c.mu.Unlock()
+}
+
+// write runs one write to the response and the flush that follows it while holding mu, so the
+// event loop and the keep-alive goroutine never write the http.ResponseWriter at the same time,
+// and nothing is written once the connection is closed.
+func (c *sseConnection) write(write func()) {
+	c.mu.Lock()
+	defer c.mu.Unlock()
+	if c.closed {
+		return
+	}
+	write()
+	c.f.Flush()
+}
+
+// close flushes what Do has written and stops the keep-alive goroutine from using the response.
+func (c *sseConnection) close() {
+	c.mu.Lock()
+	defer c.mu.Unlock()
+	c.closed = true
+	c.f.Flush()
 }
 
 func writeJsonWithSSE(w io.Writer, response *graphql.Response) {
